@@ -233,6 +233,16 @@ function reviveTree(t) {
   if (t === true || t === 'T') return true
   if (t === null || t === undefined) return undefined
   if (typeof t !== 'object') return true
+  if (Array.isArray(t.$splice)) {
+    // the shape tmpl/index.ts builds for `spliceArrayDataOnPath`: an object whose prototype is an array aligned with the new list
+    const [start, del, ins] = t.$splice
+    const arr = new Array(start)
+    arr.splice(start, del, ...new Array(ins).fill(true))
+    for (const i of t.$marks || []) arr[i] = true
+    const wrapper = Object.create(arr)
+    if (t.$length) wrapper.length = true
+    return wrapper
+  }
   const o = Object.create(null)
   for (const k of Object.keys(t)) {
     const v = reviveTree(t[k])
